@@ -104,8 +104,8 @@ Proof.
     intros x y Hx Hy.
     assert (Pre : forall z, deg (map (ren_edge j2 j1) r) z > 0 -> exists z0, ren j2 j1 z0 = z /\ deg g z0 > 0).
     { intros z Hz. rewrite Dg' in Hz. destruct (Nat.eqb_spec z j2) as [|Hz2]; [lia|].
-      destruct (Nat.eqb_spec z j1) as [->|Hz1].
-      - exists j1. split; [unfold ren; destruct (Nat.eqb_spec j1 j2); congruence|lia].
+      destruct (Nat.eqb_spec z j1) as [E|Hz1].
+      - subst z. exists j1. split; [unfold ren; destruct (Nat.eqb_spec j1 j2); congruence|lia].
       - exists z. split; [unfold ren; destruct (Nat.eqb_spec z j2); congruence|]. rewrite Dr. lia. }
     destruct (Pre x Hx) as (x0 & <- & Hx0). destruct (Pre y Hy) as (y0 & <- & Hy0).
     apply conn_ren_forward. apply Sc. apply Hc; assumption.
@@ -248,9 +248,9 @@ Proof.
     apply acyclic_cons. split; assumption.
   - (* leaves *)
     intro x. rewrite (Hl x). cbn [deg].
-    destruct (Nat.eqb_spec j x) as [<-|Hxj]; destruct (Nat.eqb_spec j' x) as [<-|Hxj']; try congruence.
-    + lia.
-    + lia.
+    destruct (Nat.eqb_spec j x) as [E1|Hxj]; destruct (Nat.eqb_spec j' x) as [E2|Hxj']; try congruence.
+    + subst x. lia.
+    + subst x. lia.
     + rewrite (Dk x) by congruence. lia.
 Qed.
 
